@@ -142,6 +142,16 @@ func render09(items []sitem, env *env09, parts map[string]string, ctr *int, src,
 				src.WriteString(fmt.Sprintf("<%% contentFor(\"c%d\") { %%>", id))
 				render09(it.Body, inner, parts, ctr, src, out)
 				src.WriteString(fmt.Sprintf("<%% } %%><%%= contentOf(\"c%d\", {v: %s}) %%>", id, vs09(it.Val)))
+			case "forit":
+				// a loop over an iterator (range): the scope is left again like that of any other loop
+				v := it.Val
+				if v == nil09 {
+					v = 0
+					inner.vars["v"] = 0
+				}
+				src.WriteString(fmt.Sprintf("<%%= for (v) in range(%d, %d) { %%>", v, v))
+				render09(it.Body, inner, parts, ctr, src, out)
+				src.WriteString("<% } %>")
 			case "defblk":
 				// contentOf of a name nobody defined: its own block is the default, rendered with the data
 				src.WriteString(fmt.Sprintf("<%%= contentOf(\"undef%d\", {v: %s}) { %%>", id, vs09(it.Val)))
@@ -181,7 +191,7 @@ func gen09x(r *Rng, depth int, top bool) []sitem {
 			items = append(items, sitem{Kind: k, Val: 1 + r.Intn(8), Name: []string{"v", "v", "a", "b", ""}[r.Intn(5)]})
 		default:
 			if depth > 0 {
-				k := []string{"for", "fn", "partial", "content", "blkctx", "defblk"}[r.Intn(6)]
+				k := []string{"for", "fn", "partial", "content", "blkctx", "defblk", "forit"}[r.Intn(7)]
 				val := 1 + r.Intn(8)
 				if r.Intn(8) == 0 {
 					val = nil09
@@ -225,7 +235,7 @@ func init() {
 		}
 		body := []sitem{{Kind: "probe", Name: "a"}, {Kind: "probe", Name: "v"}, {Kind: "let", Name: "a", Val: 7}, {Kind: "let", Name: "b", Val: 8}, {Kind: "set", Name: "v", Val: 9}, {Kind: "probe", Name: "a"}, {Kind: "probe", Name: "b"}, {Kind: "probe", Name: "v"}}
 		tail := []sitem{{Kind: "probe", Name: "a"}, {Kind: "probe", Name: "b"}, {Kind: "probe", Name: "v"}}
-		kinds := []string{"for", "fn", "partial", "content", "blkctx", "defblk"}
+		kinds := []string{"for", "fn", "partial", "content", "blkctx", "defblk", "forit"}
 		for _, k1 := range kinds {
 			for _, pre := range [][]sitem{nil, {{Kind: "let", Name: "a", Val: 1}}, {{Kind: "let", Name: "a", Val: 1}, {Kind: "let", Name: "v", Val: 2}}} {
 				judge(append(append(append([]sitem{}, pre...), sitem{Kind: k1, Val: 3, Body: body}), tail...), "single")
